@@ -297,6 +297,68 @@ Qed.
 
 Definition fill_early (st : store) : bool := Nat.leb (bs_buf_len st) (s_end st - s_start st).
 
+(* what fill_buf does at storage level, for any Read that keeps the one promise of std::io::Read
+   (it reports at most as many bytes as it was handed): no crash, invariant kept, buffer length kept,
+   the new window is the old one ++ what was read, prior_reads absorbs consumed_data *)
+Lemma bs_fill_core_spec st read rfail r0 scr :
+  bs_inv st ->
+  (forall free bs r', read free = Ok (bs, r') -> length bs <= free) ->
+  match bs_fill_core st read rfail r0 scr with
+  | SFillOk n st' r' =>
+      bs_inv st' /\ length (s_buf st') = length (s_buf st) /\ s_owned st' = s_owned st /\
+      (if fill_early st then st' = st /\ r' = r0 /\ n = 0 /\ bs_buf_len st = 0
+       else s_start st' = 0 /\ exists bs, read (bs_buf_len st - length (window st)) = Ok (bs, r') /\ n = length bs /\
+            abs_of st' = mkbw (bs_buf_len st) (window st ++ bs) 0 (s_prior st + s_start st))
+  | SFillIo st' r' =>
+      bs_inv st' /\ length (s_buf st') = length (s_buf st) /\ s_owned st' = s_owned st /\
+      fill_early st = false /\ s_start st' = 0 /\ r' = rfail /\
+      (forall bs r2, read (bs_buf_len st - length (window st)) <> Ok (bs, r2)) /\
+      abs_of st' = mkbw (bs_buf_len st) (window st) 0 (s_prior st + s_start st)
+  | SFillFull st' r' => st' = st /\ r' = r0 /\ fill_early st = true /\ bs_buf_len st <> 0
+  | SFillCrash _ => False
+  end.
+Proof.
+  intros H Hread. pose proof (window_length st H) as HL. pose proof (carry_firstn st H) as HC. cbv zeta in HC.
+  unfold bs_fill_core, fill_early. rewrite (bs_window_len_ok st H), HL.
+  set (carry := s_end st - s_start st) in *.
+  destruct (Nat.leb_spec (bs_buf_len st) carry) as [Hfull|Hroom].
+  - destruct H as [Hi1 Hi2]. destruct (Nat.eqb_spec (bs_buf_len st) 0); repeat split; auto.
+  - assert (Hown : s_owned st = true /\ bs_buf_len st = length (s_buf st)).
+    { unfold bs_buf_len in *. destruct (s_owned st); [auto|lia]. }
+    destruct Hown as [Hown Hlen]. destruct H as [H1 H2]. unfold bs_consumed_data.
+    replace (negb (Nat.eqb carry 0) && Nat.ltb (length (s_buf st)) (s_start st)) with false
+      by (destruct (Nat.ltb_spec (length (s_buf st)) (s_start st)); [lia|now rewrite andb_false_r]).
+    set (c1 := if Nat.eqb carry 0 then s_buf st else copy_within_tail (s_buf st) (s_start st)) in *.
+    destruct HC as [HC1 HC2]. rewrite Hlen in *.
+    assert (HIo : forall rr, length (scribble c1 carry scr) = length (s_buf st) /\
+              abs_of (mkst (scribble c1 carry scr) true 0 carry rr) = mkbw (length (s_buf st)) (window st) 0 rr).
+    { intros rr. assert (Hs : length (scribble c1 carry scr) = length (s_buf st)) by (rewrite scribble_length; lia).
+      split; [exact Hs|]. unfold abs_of. cbn [s_buf s_owned s_start s_end s_prior bs_buf_len]. rewrite Hs. f_equal.
+      unfold window. cbn [s_buf s_start s_end skipn]. rewrite Nat.sub_0_r. rewrite scribble_firstn by lia. exact HC2. }
+    destruct (read (length (s_buf st) - carry)) as [[bs r']| | | |] eqn:Hrd.
+    + pose proof (Hread _ _ _ Hrd) as Hle.
+      destruct (Nat.ltb_spec (length (s_buf st)) (carry + length bs)); [lia|].
+      assert (Hw : length (write_at c1 carry bs) = length (s_buf st)) by (rewrite write_at_length; lia).
+      assert (Hs : length (scribble (write_at c1 carry bs) (carry + length bs) scr) = length (s_buf st))
+        by (rewrite scribble_length; lia).
+      split; [unfold bs_inv; cbn [s_buf s_start s_end]; lia|]. split; [exact Hs|]. split; [symmetry; exact Hown|].
+      split; [reflexivity|]. exists bs. split; [reflexivity|]. split; [reflexivity|].
+      unfold abs_of. cbn [s_buf s_owned s_start s_end s_prior bs_buf_len]. rewrite Hs. f_equal.
+      unfold window. cbn [s_buf s_start s_end skipn]. rewrite Nat.sub_0_r.
+      rewrite scribble_firstn by lia. rewrite write_at_firstn by lia. now rewrite HC2.
+    + destruct (HIo (s_prior st + s_start st)) as [Hs Ha].
+      repeat split; try (cbn [s_buf s_start s_end s_owned]; lia); auto; intros; discriminate.
+    + destruct (HIo (s_prior st + s_start st)) as [Hs Ha].
+      repeat split; try (cbn [s_buf s_start s_end s_owned]; lia); auto; intros; discriminate.
+    + destruct (HIo (s_prior st + s_start st)) as [Hs Ha].
+      repeat split; try (cbn [s_buf s_start s_end s_owned]; lia); auto; intros; discriminate.
+    + destruct (HIo (s_prior st + s_start st)) as [Hs Ha].
+      repeat split; try (cbn [s_buf s_start s_end s_owned]; lia); auto; intros; discriminate.
+Qed.
+
+Lemma rd_read_le r free bs r' : rd_read r free = Ok (bs, r') -> length bs <= free.
+Proof. intros E. now destruct (rd_read_split _ _ _ _ E) as (_ & L & _). Qed.
+
 (* THE refinement step: abs_of commutes with fill_buf -- for any buffer contents [s_buf st], any
    Read schedule, any scribbling; no crash outcome; the invariant is kept; the buffer keeps its size. *)
 Theorem bs_fill_buf_refines st r scr :
@@ -315,46 +377,21 @@ Theorem bs_fill_buf_refines st r scr :
   | SFillCrash _ => False
   end.
 Proof.
-  intros H. pose proof (window_length st H) as HL. pose proof (carry_firstn st H) as HC. cbv zeta in HC.
-  unfold bs_fill_buf, bw_fill_buf, fill_early. rewrite (bs_window_len_ok st H), HL. cbn [cap win abs_of].
-  rewrite HL. set (carry := s_end st - s_start st) in *.
-  destruct (Nat.leb_spec (bs_buf_len st) carry) as [Hfull|Hroom].
-  - destruct H as [Hi1 Hi2]. destruct (Nat.eqb (bs_buf_len st) 0); repeat split; auto.
-  - assert (Hown : s_owned st = true /\ bs_buf_len st = length (s_buf st)).
-    { unfold bs_buf_len in *. destruct (s_owned st); [auto|lia]. }
-    destruct Hown as [Hown Hlen]. destruct H as [H1 H2]. unfold bs_consumed_data.
-    replace (negb (Nat.eqb carry 0) && Nat.ltb (length (s_buf st)) (s_start st)) with false
-      by (destruct (Nat.ltb_spec (length (s_buf st)) (s_start st)); [lia|now rewrite andb_false_r]).
-    set (c1 := if Nat.eqb carry 0 then s_buf st else copy_within_tail (s_buf st) (s_start st)) in *.
-    destruct HC as [HC1 HC2]. rewrite Hlen in *.
-    destruct (rd_read r (length (s_buf st) - carry)) as [[bs r']| | | |] eqn:Hrd.
-    + destruct (rd_read_split _ _ _ _ Hrd) as (_ & Hle & _).
-      destruct (Nat.ltb_spec (length (s_buf st)) (carry + length bs)); [lia|].
-      assert (Hw : length (write_at c1 carry bs) = length (s_buf st)) by (rewrite write_at_length; lia).
-      assert (Hs : length (scribble (write_at c1 carry bs) (carry + length bs) scr) = length (s_buf st))
-        by (rewrite scribble_length; lia).
-      split; [|split; [|split; [|split]]]; try reflexivity; try assumption.
-      * f_equal. unfold abs_of. cbn [s_buf s_owned s_start s_end s_prior bs_buf_len]. rewrite Hs. f_equal.
-        unfold window. cbn [s_buf s_start s_end skipn]. rewrite Nat.sub_0_r.
-        rewrite scribble_firstn by lia. rewrite write_at_firstn by lia. now rewrite HC2.
-      * unfold bs_inv. cbn [s_buf s_start s_end]. lia.
-      * symmetry. exact Hown.
-    + assert (Hs : length (scribble c1 carry scr) = length (s_buf st)) by (rewrite scribble_length; lia).
-      repeat split; try assumption; cbn [s_buf s_start s_end s_owned]; try lia; auto.
-      f_equal. unfold abs_of. cbn [s_buf s_owned s_start s_end s_prior bs_buf_len]. rewrite Hs. f_equal.
-      unfold window. cbn [s_buf s_start s_end skipn]. rewrite Nat.sub_0_r. rewrite scribble_firstn by lia. now rewrite HC2.
-    + assert (Hs : length (scribble c1 carry scr) = length (s_buf st)) by (rewrite scribble_length; lia).
-      repeat split; try assumption; cbn [s_buf s_start s_end s_owned]; try lia; auto.
-      f_equal. unfold abs_of. cbn [s_buf s_owned s_start s_end s_prior bs_buf_len]. rewrite Hs. f_equal.
-      unfold window. cbn [s_buf s_start s_end skipn]. rewrite Nat.sub_0_r. rewrite scribble_firstn by lia. now rewrite HC2.
-    + assert (Hs : length (scribble c1 carry scr) = length (s_buf st)) by (rewrite scribble_length; lia).
-      repeat split; try assumption; cbn [s_buf s_start s_end s_owned]; try lia; auto.
-      f_equal. unfold abs_of. cbn [s_buf s_owned s_start s_end s_prior bs_buf_len]. rewrite Hs. f_equal.
-      unfold window. cbn [s_buf s_start s_end skipn]. rewrite Nat.sub_0_r. rewrite scribble_firstn by lia. now rewrite HC2.
-    + assert (Hs : length (scribble c1 carry scr) = length (s_buf st)) by (rewrite scribble_length; lia).
-      repeat split; try assumption; cbn [s_buf s_start s_end s_owned]; try lia; auto.
-      f_equal. unfold abs_of. cbn [s_buf s_owned s_start s_end s_prior bs_buf_len]. rewrite Hs. f_equal.
-      unfold window. cbn [s_buf s_start s_end skipn]. rewrite Nat.sub_0_r. rewrite scribble_firstn by lia. now rewrite HC2.
+  intros H. pose proof (window_length st H) as HL.
+  pose proof (bs_fill_core_spec st (rd_read r) (rd_after_fail r) r scr H (rd_read_le r)) as S.
+  unfold bs_fill_buf. unfold bw_fill_buf. cbn [cap win abs_of consumed prior].
+  unfold fill_early in *. rewrite <- HL in S |- *.
+  destruct (bs_fill_core st (rd_read r) (rd_after_fail r) r scr) as [n st' r'|st' r'|st' r'|s]; [| | |exact S].
+  - destruct S as (S1 & S2 & S3 & S4). split; [|split; [exact S1|split; [exact S2|split; [exact S3|]]]].
+    + destruct (Nat.leb (bs_buf_len st) (length (window st))).
+      * destruct S4 as (-> & -> & -> & Z). rewrite Z. reflexivity.
+      * destruct S4 as (Z & bs & E & -> & A). rewrite E, A. reflexivity.
+    + destruct (Nat.leb (bs_buf_len st) (length (window st))); [destruct S4 as (-> & -> & _); auto|tauto].
+  - destruct S as (S1 & S2 & S3 & S4 & S5 & -> & S7 & A). rewrite S4.
+    split; [|tauto]. rewrite A.
+    destruct (rd_read r (bs_buf_len st - length (window st))) as [[bs r2]| | | |] eqn:E; try reflexivity.
+    exfalso. exact (S7 _ _ eq_refl).
+  - destruct S as (-> & -> & S3 & S4). rewrite S3. apply Nat.eqb_neq in S4. rewrite S4. auto.
 Qed.
 
 (* index-level safety of fill_buf: from a state satisfying the pointer invariant no offset leaves
@@ -363,35 +400,74 @@ Qed.
 Definition sfill_state (f : sfill_res) : option store :=
   match f with SFillOk _ st _ | SFillIo st _ | SFillFull st _ => Some st | SFillCrash _ => None end.
 
+Theorem bs_fill_core_safe st read rfail r0 scr :
+  bs_inv st ->
+  (forall free bs r', read free = Ok (bs, r') -> length bs <= free) ->
+  exists st', sfill_state (bs_fill_core st read rfail r0 scr) = Some st' /\ bs_inv st' /\
+              length (s_buf st') = length (s_buf st) /\ s_owned st' = s_owned st.
+Proof.
+  intros H Hr. pose proof (bs_fill_core_spec st read rfail r0 scr H Hr) as R.
+  destruct (bs_fill_core st read rfail r0 scr) as [n st' r'|st' r'|st' r'|s]; cbn [sfill_state].
+  - exists st'. tauto.
+  - exists st'. tauto.
+  - exists st'. destruct R as (-> & _). auto.
+  - contradiction.
+Qed.
+
 Theorem bs_fill_buf_safe st r scr :
   bs_inv st ->
   exists st', sfill_state (bs_fill_buf st r scr) = Some st' /\ bs_inv st' /\
               length (s_buf st') = length (s_buf st) /\ s_owned st' = s_owned st.
-Proof.
-  intros H. pose proof (bs_fill_buf_refines st r scr H) as R.
-  destruct (bs_fill_buf st r scr) as [n st' r'|st' r'|st' r'|s]; cbn [sfill_state].
-  - exists st'. tauto.
-  - exists st'. tauto.
-  - exists st'. destruct R as (_ & -> & _). auto.
-  - contradiction.
-Qed.
+Proof. intros H. apply bs_fill_core_safe; [exact H|apply rd_read_le]. Qed.
 
 (* position(): never moved by fill_buf, whatever its outcome *)
+Lemma bs_fill_core_position st read rfail r0 scr st' :
+  bs_inv st -> (forall free bs r', read free = Ok (bs, r') -> length bs <= free) ->
+  sfill_state (bs_fill_core st read rfail r0 scr) = Some st' -> bs_position st' = bs_position st.
+Proof.
+  intros H Hr. pose proof (bs_fill_core_spec st read rfail r0 scr H Hr) as S.
+  assert (K : forall w n, abs_of st' = mkbw (bs_buf_len st) w n (s_prior st + s_start st) -> s_start st' = n ->
+                          bs_position st' = bs_position st + n).
+  { intros w n A Z. apply (f_equal prior) in A. cbn [prior abs_of] in A. unfold bs_position, bs_consumed_data. lia. }
+  destruct (bs_fill_core st read rfail r0 scr) as [n st2 r'|st2 r'|st2 r'|s]; cbn [sfill_state]; intros E; inversion E; subst st2.
+  - destruct S as (_ & _ & _ & S4). destruct (fill_early st).
+    + destruct S4 as (-> & _). reflexivity.
+    + destruct S4 as (Z & bs & _ & _ & A). rewrite (K _ 0 A Z). lia.
+  - destruct S as (_ & _ & _ & _ & Z & _ & _ & A). rewrite (K _ 0 A Z). lia.
+  - destruct S as (-> & _). reflexivity.
+Qed.
+
 Theorem bs_fill_buf_position st r scr st' :
   bs_inv st -> sfill_state (bs_fill_buf st r scr) = Some st' -> bs_position st' = bs_position st.
+Proof. intros H. apply bs_fill_core_position; [exact H|apply rd_read_le]. Qed.
+
+Lemma zero_read_le (r : rd) : forall free bs r', (fun _ : nat => Ok (@nil N, r)) free = Ok (bs, r') -> length bs <= free.
+Proof. intros free bs r' E. inversion E. cbn. lia. Qed.
+
+Theorem bs_fill_zero_position st r scr st' :
+  bs_inv st -> sfill_state (bs_fill_zero st r scr) = Some st' -> bs_position st' = bs_position st.
+Proof. intros H. apply bs_fill_core_position; [exact H|apply zero_read_le]. Qed.
+
+(* a Read answering Ok(0) with data left: the window is repositioned, nothing else happens *)
+Theorem bs_fill_zero_spec st r scr :
+  bs_inv st ->
+  match bs_fill_zero st r scr with
+  | SFillOk n st' r' =>
+      n = 0 /\ r' = r /\ bs_inv st' /\ length (s_buf st') = length (s_buf st) /\ s_owned st' = s_owned st /\
+      (if fill_early st then st' = st /\ bs_buf_len st = 0
+       else s_start st' = 0 /\ abs_of st' = mkbw (bs_buf_len st) (window st) 0 (s_prior st + s_start st))
+  | SFillFull st' r' => st' = st /\ r' = r /\ fill_early st = true /\ bs_buf_len st <> 0
+  | SFillIo _ _ | SFillCrash _ => False
+  end.
 Proof.
-  intros H. pose proof (bs_fill_buf_refines st r scr H) as R.
-  unfold bs_fill_buf in *. rewrite (bs_window_len_ok st H) in *.
-  destruct (Nat.leb (bs_buf_len st) (length (window st))).
-  - destruct (Nat.eqb (bs_buf_len st) 0); cbn [sfill_state]; intros E; inversion E; reflexivity.
-  - destruct (negb (Nat.eqb (length (window st)) 0) && Nat.ltb (length (s_buf st)) (bs_consumed_data st)); [contradiction|].
-    destruct (rd_read r (bs_buf_len st - length (window st))) as [[bs r']| | | |].
-    + destruct (Nat.ltb (bs_buf_len st) (length (window st) + length bs)); [contradiction|].
-      cbn [sfill_state]. intros E; inversion E. unfold bs_position, bs_consumed_data. cbn. lia.
-    + cbn [sfill_state]. intros E; inversion E. unfold bs_position, bs_consumed_data. cbn. lia.
-    + cbn [sfill_state]. intros E; inversion E. unfold bs_position, bs_consumed_data. cbn. lia.
-    + cbn [sfill_state]. intros E; inversion E. unfold bs_position, bs_consumed_data. cbn. lia.
-    + cbn [sfill_state]. intros E; inversion E. unfold bs_position, bs_consumed_data. cbn. lia.
+  intros H. pose proof (bs_fill_core_spec st (fun _ => Ok ([], r)) r r scr H (zero_read_le r)) as S.
+  unfold bs_fill_zero. destruct (bs_fill_core st (fun _ => Ok ([], r)) r r scr) as [n st' r'|st' r'|st' r'|s].
+  - destruct S as (S1 & S2 & S3 & S4). destruct (fill_early st).
+    + destruct S4 as (-> & -> & -> & Z). auto 10.
+    + destruct S4 as (Z & bs & E & -> & A). inversion E; subst. rewrite app_nil_r in A. auto 10.
+  - destruct S as (_ & _ & _ & _ & _ & _ & S7 & _). exact (S7 _ _ eq_refl).
+  - exact S.
+  - exact S.
 Qed.
 
 Theorem bs_advance_position st amt st' :
@@ -445,7 +521,7 @@ Theorem bs_step_refines st r o :
   s_owned (step_st (bs_step st r o)) = s_owned st.
 Proof.
   intros H. pose proof (window_length st H) as HL. pose proof H as [Hs0 He0]. unfold step_st.
-  destruct o as [scr|k|k|i j|k|p|i j]; cbn [bs_step abs_step].
+  destruct o as [scr|scr|k|k|i j|k|p|i j]; cbn [bs_step abs_step].
   - (* fill *)
     pose proof (bs_fill_buf_refines st r scr H) as R.
     assert (HE : Nat.leb (cap (a_win (absst_of st))) (length (win (a_win (absst_of st)))) = fill_early st)
@@ -461,6 +537,18 @@ Proof.
     + destruct R as (R1 & R2 & R3 & R4). rewrite R1, R3. subst st'. cbn [fst snd]. rewrite (bs_observe_abs _ st H).
       split; [reflexivity|split; [exact H|split; reflexivity]].
     + contradiction.
+  - (* fill over a Read answering Ok(0) *)
+    pose proof (bs_fill_zero_spec st r scr H) as R.
+    assert (HE : Nat.leb (cap (a_win (absst_of st))) (length (win (a_win (absst_of st)))) = fill_early st)
+      by (unfold fill_early; cbn [absst_of a_win abs_of cap win]; now rewrite HL).
+    cbv zeta. rewrite HE. cbn [absst_of a_win abs_of cap win prior consumed].
+    destruct (bs_fill_zero st r scr) as [n st' r'|st' r'|st' r'|s]; try contradiction.
+    + destruct R as (-> & -> & R2 & R3 & R4 & R5). cbn [fst snd]. rewrite (bs_observe_abs _ st' R2).
+      split; [|split; [exact R2|split; assumption]]. destruct (fill_early st).
+      * destruct R5 as (-> & Z). rewrite Z. reflexivity.
+      * destruct R5 as (Z & A). unfold absst_of. rewrite (behind_start0 st' Z), A. reflexivity.
+    + destruct R as (-> & -> & R3 & R4). rewrite R3. apply Nat.eqb_neq in R4. rewrite R4. cbn [fst snd].
+      rewrite (bs_observe_abs _ st H). split; [reflexivity|split; [exact H|split; reflexivity]].
   - (* advance, resolved *)
     rewrite (bs_window_len_ok st H). cbn [absst_of a_win abs_of win].
     pose proof (mod_le k (length (window st))) as Hm.
@@ -568,18 +656,22 @@ Proof. intros E. now rewrite !bs_drive_refines, E. Qed.
 
 (* ---------- safety of whole runs ---------- *)
 Definition resolved (o : op) : bool :=
-  match o with OFill _ | OAdv _ | OAdvTo _ | OGet _ _ => true | _ => false end.
+  match o with OFill _ | OFillZ _ | OAdv _ | OAdvTo _ | OGet _ _ => true | _ => false end.
 
 Lemma bs_step_resolved_safe st r o :
   bs_inv st -> resolved o = true -> is_crash_obs (fst (fst (bs_step st r o))) = false.
 Proof.
   intros H Hr. pose proof H as [Hs He]. pose proof (window_length st H) as HL.
-  destruct o as [scr|k|k|i j|k|p|i j]; try discriminate; cbn [bs_step].
+  destruct o as [scr|scr|k|k|i j|k|p|i j]; try discriminate; cbn [bs_step].
   - pose proof (bs_fill_buf_refines st r scr H) as R.
     destruct (bs_fill_buf st r scr) as [n st' r'|st' r'|st' r'|s]; [| | |contradiction]; cbn [fst].
     + destruct R as (_ & R2 & _). rewrite (bs_observe_abs _ _ R2). reflexivity.
     + destruct R as (_ & R2 & _). rewrite (bs_observe_abs _ _ R2). reflexivity.
     + destruct R as (_ & -> & _). rewrite (bs_observe_abs _ _ H). reflexivity.
+  - pose proof (bs_fill_zero_spec st r scr H) as R.
+    destruct (bs_fill_zero st r scr) as [n st' r'|st' r'|st' r'|s]; try contradiction; cbn [fst].
+    + destruct R as (_ & _ & R2 & _). rewrite (bs_observe_abs _ _ R2). reflexivity.
+    + destruct R as (-> & _). rewrite (bs_observe_abs _ _ H). reflexivity.
   - rewrite (bs_window_len_ok st H). pose proof (mod_le k (length (window st))) as Hm.
     destruct (abs_advance_of st _ H Hm) as (_ & A2 & _). rewrite A2. cbn [fst].
     rewrite bs_observe_abs by (apply adv_to_inv; [exact H|lia]). reflexivity.
@@ -668,7 +760,7 @@ Proof. destruct st; reflexivity. Qed.
 Lemma bs_step_nonfill st r o :
   bs_inv st ->
   match o with
-  | OFill _ => True
+  | OFill _ | OFillZ _ => True
   | _ => snd (bs_step st r o) = r /\
          exists p, s_start st <= p <= s_end st /\ step_st (bs_step st r o) = adv_to st p
   end.
@@ -676,7 +768,7 @@ Proof.
   intros H. pose proof H as [Hs He]. pose proof (window_length st H) as HL. unfold step_st.
   assert (Hself : exists p, s_start st <= p <= s_end st /\ st = adv_to st p)
     by (exists (s_start st); split; [lia|symmetry; apply adv_to_self]).
-  destruct o as [scr|k|k|i j|k|p|i j]; cbn [bs_step]; [exact I| | | | | |].
+  destruct o as [scr|scr|k|k|i j|k|p|i j]; cbn [bs_step]; [exact I|exact I| | | | | |].
   - rewrite (bs_window_len_ok st H). pose proof (mod_le k (length (window st))) as Hm.
     destruct (abs_advance_of st _ H Hm) as (_ & A2 & _). rewrite A2. cbn [fst snd]. split; [reflexivity|].
     eexists; split; [|reflexivity]. lia.
@@ -700,18 +792,26 @@ Theorem bs_step_keeps_stream input st r o :
   bs_inv st -> bs_stream2 input st r ->
   bs_stream2 input (step_st (bs_step st r o)) (snd (bs_step st r o)).
 Proof.
-  intros H S. destruct o as [scr|k|k|i j|k|p|i j];
+  intros H S. destruct o as [scr|scr|k|k|i j|k|p|i j];
     try (match goal with |- context [bs_step st r ?o] =>
            destruct (bs_step_nonfill st r o H) as (Er & q & _ & Es); rewrite Er, Es; apply stream2_adv_to; exact S end).
-  unfold step_st. cbn [bs_step].
-  pose proof (bs_fill_buf_refines st r scr H) as R.
-  pose proof (fill_buf_preserves input (abs_of st) r (stream2_stream input st r H S)) as P.
-  destruct (bs_fill_buf st r scr) as [n st' r'|st' r'|st' r'|s]; cbn [fst snd].
-  - destruct R as (R1 & R2 & R3 & R4 & R5). rewrite R1 in P. destruct P as (P1 & _).
-    destruct (fill_early st); [destruct R5 as [-> ->]; exact S|]. apply stream_stream2; assumption.
-  - destruct R as (R1 & R2 & R3 & R4 & R5 & R6). rewrite R1 in P. destruct P as (P1 & _). apply stream_stream2; assumption.
-  - destruct R as (R1 & -> & R3 & ->). exact S.
-  - contradiction.
+  - unfold step_st. cbn [bs_step].
+    pose proof (bs_fill_buf_refines st r scr H) as R.
+    pose proof (fill_buf_preserves input (abs_of st) r (stream2_stream input st r H S)) as P.
+    destruct (bs_fill_buf st r scr) as [n st' r'|st' r'|st' r'|s]; cbn [fst snd].
+    + destruct R as (R1 & R2 & R3 & R4 & R5). rewrite R1 in P. destruct P as (P1 & _).
+      destruct (fill_early st); [destruct R5 as [-> ->]; exact S|]. apply stream_stream2; assumption.
+    + destruct R as (R1 & R2 & R3 & R4 & R5 & R6). rewrite R1 in P. destruct P as (P1 & _). apply stream_stream2; assumption.
+    + destruct R as (R1 & -> & R3 & ->). exact S.
+    + contradiction.
+  - unfold step_st. cbn [bs_step].
+    pose proof (bs_fill_zero_spec st r scr H) as R.
+    destruct (bs_fill_zero st r scr) as [n st' r'|st' r'|st' r'|s]; try contradiction; cbn [fst snd].
+    + destruct R as (-> & -> & R2 & R3 & R4 & R5). destruct (fill_early st); [destruct R5 as [-> _]; exact S|].
+      destruct R5 as (Z & A). apply stream_stream2; [exact Z|]. rewrite A.
+      destruct (stream2_stream input st r H S) as (pre & E & L). exists pre. cbn [win abs_of] in *. split; [exact E|].
+      unfold bw_position in *. cbn [prior consumed abs_of] in *. lia.
+    + destruct R as (-> & -> & _). exact S.
 Qed.
 
 (* what every non-crash observation shows *)
@@ -724,8 +824,9 @@ Proof.
   assert (K : forall ev st', bs_inv st' -> o_win (bs_observe ev st') = window st' /\ o_pos (bs_observe ev st') = bs_position st' /\
                                         o_consumed (bs_observe ev st') = s_start st')
     by (intros ev st' Hi'; rewrite (bs_observe_abs ev st' Hi'); auto).
-  destruct o as [scr|k|k|i j|k|p|i j]; cbn [bs_step] in *; cbv zeta.
+  destruct o as [scr|scr|k|k|i j|k|p|i j]; cbn [bs_step] in *; cbv zeta.
   - destruct (bs_fill_buf st r scr); cbn [fst snd] in *; try (intros _; apply K; assumption). discriminate.
+  - destruct (bs_fill_zero st r scr); cbn [fst snd] in *; try (intros _; apply K; assumption). discriminate.
   - destruct (bs_window_len st); cbn [fst snd] in *; try discriminate.
     destruct (bs_advance st _); cbn [fst snd] in *; try discriminate. intros _; apply K; assumption.
   - destruct (bs_window_len st); cbn [fst snd] in *; try discriminate.
@@ -779,20 +880,28 @@ Definition bs_fill_inv (st : store) (r : rd) : Prop := bs_position st + (s_end s
 Theorem bs_step_keeps_delivered st r o :
   bs_inv st -> bs_fill_inv st r -> bs_fill_inv (step_st (bs_step st r o)) (snd (bs_step st r o)).
 Proof.
-  intros H F. pose proof H as [Hs He]. destruct o as [scr|k|k|i j|k|p|i j];
+  intros H F. pose proof H as [Hs He]. destruct o as [scr|scr|k|k|i j|k|p|i j];
     try (match goal with |- context [bs_step st r ?o] =>
            destruct (bs_step_nonfill st r o H) as (Er & q & Hq & Es); rewrite Er, Es;
            unfold bs_fill_inv, bs_position, bs_consumed_data, adv_to in *; cbn [s_start s_end s_prior]; lia end).
-  unfold step_st. cbn [bs_step].
-  pose proof (bs_fill_buf_refines st r scr H) as R.
-  assert (FA : fill_inv (abs_of st) r)
-    by (unfold fill_inv; cbn [win abs_of]; rewrite (window_length st H), <- bs_position_abs; exact F).
-  pose proof (fill_inv_preserved (abs_of st) r FA) as P.
-  assert (K : forall st' r', bs_inv st' -> fill_inv (abs_of st') r' -> bs_fill_inv st' r')
-    by (intros st' r' Hi' Q; unfold fill_inv in Q; cbn [win abs_of] in Q; rewrite (window_length st' Hi'), <- bs_position_abs in Q; exact Q).
-  destruct (bs_fill_buf st r scr) as [n st' r'|st' r'|st' r'|s]; cbn [fst snd].
-  - destruct R as (R1 & R2 & _). rewrite R1 in P. apply K; assumption.
-  - destruct R as (R1 & R2 & _). rewrite R1 in P. apply K; assumption.
-  - destruct R as (R1 & -> & _ & ->). exact F.
-  - contradiction.
+  - unfold step_st. cbn [bs_step].
+    pose proof (bs_fill_buf_refines st r scr H) as R.
+    assert (FA : fill_inv (abs_of st) r)
+      by (unfold fill_inv; cbn [win abs_of]; rewrite (window_length st H), <- bs_position_abs; exact F).
+    pose proof (fill_inv_preserved (abs_of st) r FA) as P.
+    assert (K : forall st' r', bs_inv st' -> fill_inv (abs_of st') r' -> bs_fill_inv st' r')
+      by (intros st' r' Hi' Q; unfold fill_inv in Q; cbn [win abs_of] in Q; rewrite (window_length st' Hi'), <- bs_position_abs in Q; exact Q).
+    destruct (bs_fill_buf st r scr) as [n st' r'|st' r'|st' r'|s]; cbn [fst snd].
+    + destruct R as (R1 & R2 & _). rewrite R1 in P. apply K; assumption.
+    + destruct R as (R1 & R2 & _). rewrite R1 in P. apply K; assumption.
+    + destruct R as (R1 & -> & _ & ->). exact F.
+    + contradiction.
+  - unfold step_st. cbn [bs_step].
+    pose proof (bs_fill_zero_spec st r scr H) as R.
+    destruct (bs_fill_zero st r scr) as [n st' r'|st' r'|st' r'|s]; try contradiction; cbn [fst snd].
+    + destruct R as (-> & -> & R2 & R3 & R4 & R5). destruct (fill_early st); [destruct R5 as [-> _]; exact F|].
+      destruct R5 as (Z & A). pose proof (window_length st' R2) as HL'. pose proof (window_length st H) as HL.
+      pose proof (f_equal prior A) as Ap. pose proof (f_equal (fun b => length (win b)) A) as Aw.
+      cbn [prior win abs_of] in Ap, Aw. unfold bs_fill_inv, bs_position, bs_consumed_data in *. lia.
+    + destruct R as (-> & -> & _). exact F.
 Qed.
